@@ -58,6 +58,11 @@ PARTIAL = [
     "hang there, or any hang of the implementation that no order of the model shows, is a VIOLATION.",
 ]
 ASSUMPTIONS = [
+    "state-level tie (incremental stream): on every generated case whose values and executor invocations agree strictly "
+    "with the as-is full model (no order choice point; this includes the cases where both show a known finding), the digest "
+    "of the real engine's persistent bookkeeping after every session / round (engine_common / eng::state_digest) must equal "
+    "the digest of the model state; the model's `sccRun` bit (not stored by the code) is not in the digest; other cases are "
+    "counted, not judged",
     "fingerprints are injective on the values of a run (value = fingerprint in the models; C13)",
     "sequential driving of the engine (one task at a time, current-thread runtime, YieldFrequency::Never)",
     "executors ask only for keys that exist (WFProgram) and do not catch the cyclic unwinding themselves",
